@@ -742,6 +742,7 @@ def run(ctx, model):
     if stopped:
         ctx.notes.append("stopped early: more than 25 differences between model and implementation")
     deadline_scenarios(ctx, cov)
+    highlevel_pending(ctx, cov)
     return cov
 
 
@@ -787,6 +788,58 @@ def deadline_scenarios(ctx, cov):
                                    "case": {"kind": "deadline", "scenario": name}})
 
 
+def highlevel_pending(ctx, cov):
+    """Responses that have ARRIVED but have not been read yet survive whatever else the high-level object does in between
+    (size queries, id assignment, an upload that fails because the window size is unknown): the next receive_response calls
+    return them, in order.  Run on terminals whose window size is 0x0 (a fresh pty, a serial console) and 80x24."""
+    work = ctx.work
+
+    def child():
+        import pty
+        import tty
+        common.scrub_process_env()
+        os.environ["HOME"] = work
+        os.environ["XDG_STATE_HOME"] = os.path.join(work, "state")
+        os.environ["XDG_CONFIG_HOME"] = os.path.join(work, "config")
+        import tupimage
+        from PIL import Image
+        img = os.path.join(work, "c19-hl.png")
+        Image.new("RGB", (4, 4), (1, 2, 3)).save(img)
+        master, slave = pty.openpty()
+        tty.setraw(slave)
+        inp = os.fdopen(slave, "rb", buffering=0, closefd=False)
+        t = tupimage.TupimageTerminal(out_command=common.RecStream(), out_display=common.RecStream(), in_response=inp, id_database=os.path.join(work, "c19-hl.db"),
+                                      config="DEFAULT", upload_method="direct", redetect_terminal=False, num_tmux_layers=0)
+        os.write(master, b"noise\x1b_Gi=31;OK\x1b\\more\x1b_Gi=32,p=5;ENOENT:gone\x1b\\")
+        did = []
+        for name, f in (("get_max_cols_and_rows", lambda: t.get_max_cols_and_rows()), ("get_cell_size", lambda: t.get_cell_size()),
+                        ("assign_id", lambda: t.assign_id(img)), ("upload", lambda: t.upload(img)), ("get_optimal_cols_and_rows", lambda: t.get_optimal_cols_and_rows(10, 10))):
+            try:
+                f()
+                did.append([name, "ok"])
+            except Exception as e:  # noqa: BLE001
+                did.append([name, type(e).__name__])
+        got = []
+        for _ in range(2):
+            r_ = t.term.receive_response(timeout=0.3)
+            got.append([bool(r_.is_valid), r_.image_id, r_.placement_id, r_.message, r_.non_response.hex()])
+        return {"did": did, "got": got}
+
+    for geom in ((0, 0, 0, 0), (24, 80, 640, 384)):
+        r = common.in_pty(child, rows=geom[0], cols=geom[1], xpx=geom[2], ypx=geom[3], timeout=120)
+        if "ok" not in r:
+            ctx.corr_breaks.append({"what": "pending-responses scenario failed in the pty sandbox", "error": {k: v for k, v in r.items() if k != "tty"}})
+            continue
+        o = r["ok"]
+        cov.add({"pending-responses": list(geom), "calls": o["did"]}, klass="highlevel/pending-responses/" + ("no-winsize" if geom[0] == 0 else "80x24"))
+        want = [[True, 31, None, "OK", b"noise".hex()], [True, 32, 5, "ENOENT:gone", b"more".hex()]]
+        if o["got"] != want:
+            ctx.violations.append({"signature": {"class": "response-lost", "mode": "recv", "path": "TupimageTerminal"},
+                                   "what": f"two responses had arrived; after the high-level calls {o['did']} on a terminal with window size {geom[1]}x{geom[0]} the next two receive_response calls "
+                                           f"return {o['got']} instead of {want}",
+                                   "case": {"kind": "pending", "geometry": list(geom)}})
+
+
 def judge(ctx, cov, c, impl):
     nontrivial = APC_G in c["stream"] or (c["mode"] == "cursor" and CSI in c["stream"])
     cov.add({"mode": c["mode"], "calls": c["calls"], "stream": hexs(c["stream"]), "path": bool(c.get("path"))}, nontrivial=nontrivial, klass=c["klass"])
@@ -804,6 +857,12 @@ def judge(ctx, cov, c, impl):
 def replay(ctx, model, rec):
     common.scrub_process_env()
     common.import_impl()
+    if rec.get("case", {}).get("kind") == "pending":
+        n0 = len(ctx.violations)
+        highlevel_pending(ctx, common.Coverage("replay"))
+        mine = ctx.violations[n0:]
+        del ctx.violations[n0:]
+        return {"violates": bool(mine), "violations": [v["what"] for v in mine][:3]}
     if rec.get("case", {}).get("kind") == "deadline":
         n0 = len(ctx.violations)
         deadline_scenarios(ctx, common.Coverage("replay"))
